@@ -35,6 +35,10 @@ RenameOf(n) == CASE n = "none" -> None
                  [] n = "9lives" -> <<"9","l","i","v","e","s">>
                  [] n = "init" -> <<"i","n","i","t">>
                  [] n = "default" -> <<"d","e","f","a","u","l","t">>
+                 \* JSON-schema style wire names: a `$` followed by a letter starts a template in a Kotlin string literal and must
+                 \* be written escaped there; with and without a character that needs escaping anyway
+                 [] n = "$ref" -> <<"$","r","e","f">>
+                 [] n = "$a_quote_b" -> <<"$","a","\"","b">>
 
 PairOf(n) == CASE n = "type_content" -> <<"type", "content">>
                [] n = "t_c" -> <<"t", "c">>
